@@ -88,7 +88,7 @@ func main() {
 // ---------------------------------------------------------------------------------------
 
 func roundTrip(c *mon.Ctx, types []typeEntry) {
-	per := c.N(400, 6000)
+	per := c.N(400, 4000)
 	c.Cases("roundtrip", len(types)*per, func(k *mon.Case) {
 		te := types[k.Index%len(types)]
 		seed := k.R.Int63()
@@ -165,7 +165,7 @@ func roundTrip(c *mon.Ctx, types []typeEntry) {
 // Writer -> Reader round trip of every primitive kind the generator can emit.
 
 func primitives(c *mon.Ctx) {
-	c.Cases("primitives", c.N(4000, 60000), func(k *mon.Case) {
+	c.Cases("primitives", c.N(4000, 40000), func(k *mon.Case) {
 		r := k.R
 		for it := 0; it < 50; it++ {
 			k.Eval(1)
@@ -352,7 +352,7 @@ func genTx(r *rand.Rand, small bool) *blockchain.Transaction {
 }
 
 func txMutants(c *mon.Ctx) {
-	c.Cases("tx-mutants", c.N(6000, 90000), func(k *mon.Case) {
+	c.Cases("tx-mutants", c.N(6000, 60000), func(k *mon.Case) {
 		tx := genTx(k.R, k.R.Intn(4) != 0)
 		enc := tx.Encode()
 		if !judgeTx(k, enc, "canonical", true) {
@@ -462,7 +462,7 @@ func genHeader(r *rand.Rand, height uint32) *blockchain.BlockHeader {
 }
 
 func ids(c *mon.Ctx) {
-	c.Cases("ids", c.N(800, 12000), func(k *mon.Case) {
+	c.Cases("ids", c.N(800, 8000), func(k *mon.Case) {
 		r := k.R
 		database, err := db.NewInMemoryDB()
 		if err != nil {
@@ -639,7 +639,7 @@ func ids(c *mon.Ctx) {
 // Lisk32
 
 func lisk32(c *mon.Ctx) {
-	c.Cases("lisk32", c.N(1600, 24000), func(k *mon.Case) {
+	c.Cases("lisk32", c.N(1600, 16000), func(k *mon.Case) {
 		r := k.R
 		a := make([]byte, 20)
 		switch k.Index % 8 {
